@@ -166,7 +166,7 @@ func corpusCases() []func(c *ctx) {
 					pubs[i] = c.pool.priv[i%len(c.pool.priv)].PublicKey()
 				}
 				var script []byte
-				obs := hx.Safe(func() string {
+				obs := c.safe(func() string {
 					s, err := smartcontract.CreateMultiSigRedeemScript(m, pubs)
 					if err != nil {
 						return "err"
